@@ -106,6 +106,18 @@ func (w *World) StdChain(ctx sdk.Context, ref string) error {
 	if s == nil {
 		return fmt.Errorf("snapshot not worthy")
 	}
+	// the snapshot is live on the chain (as after an attested UpdateValset / first deployment)
+	if err := w.App.ValsetKeeper.SetSnapshotOnChain(ctx, s.Id, ref); err != nil {
+		return fmt.Errorf("snapshot on chain: %w", err)
+	}
+	if f, _ := w.App.TreasuryKeeper.GetFees(ctx); f == nil || f.CommunityFundFee == "" {
+		if err := w.App.TreasuryKeeper.SetCommunityFundFee(ctx, "0.01"); err != nil {
+			return err
+		}
+		if err := w.App.TreasuryKeeper.SetSecurityFee(ctx, "0.01"); err != nil {
+			return err
+		}
+	}
 	return nil
 }
 
